@@ -31,8 +31,12 @@ Definition response_equiv (a b : response) : bool :=
   | RRedirect c l, RRedirect c' l' => (c =? c')%Z && loc_equiv l l'
   | _, _ => response_eqb a b
   end.
-Definition any_adjacent_raw (q : request) (ts : list target) : bool :=
-  existsb (fun t => negb (t_code t =? 0)%Z && region_adjacent_raw t q) ts.
+(* a redirect candidate of the host-adjacent form (finding F-C13-1 lives there: a repair changes
+   the text of its Locations, so there the text is compared up to decoding) *)
+Definition any_adjacent (ts : list target) : bool :=
+  existsb (fun t => negb (t_code t =? 0)%Z && adjacent t) ts.
+Definition response_same (adj : bool) (impl m : response) : bool :=
+  response_eqb impl m || (adj && response_equiv impl m).
 
 Definition opt_pair_eqb (a b : option (str * str)) : bool :=
   match a, b with
@@ -53,7 +57,26 @@ Inductive case :=
 | CServe (cands : list (option target)) (q : request) (impl : response) (hits : nat)
 (* two requests for the same redirect target, forced schedule Lookup A, Lookup B,
    serve A, serve B on the real HTTPProxy *)
-| CSched (t : target) (qa qb : request) (la lb : response).
+| CSched (t : target) (qa qb : request) (la lb : response)
+(* a HISTORY of requests served one after the other by one HTTPProxy over ONE table object
+   (so the same *route.Target answers several requests): per request the candidates of
+   Table.lookup in visiting order, the response and the upstream hit count *)
+| CHistory (steps : list (request * list (option target) * response * nat))
+(* Target.BuildRedirectURL called repeatedly on ONE target object: RedirectURL.String() after each call *)
+| CBuildHistory (t : target) (steps : list (request * str)).
+
+(* the model run of a serial history: the shared RedirectURL fields are threaded through *)
+Fixpoint history_model (st : store) (steps : list (request * list (option target) * response * nat)) : list response :=
+  match steps with
+  | [] => []
+  | (q, cands, _, _) :: r => let '(resp, st') := handle q cands st in resp :: history_model st' r
+  end.
+Fixpoint list_all2 {A B} (f : A -> B -> bool) (a : list A) (b : list B) : bool :=
+  match a, b with
+  | [], [] => true
+  | x :: a', y :: b' => f x y && list_all2 f a' b'
+  | _, _ => false
+  end.
 
 Definition check_case (c : case) : N :=
   match c with
@@ -62,8 +85,13 @@ Definition check_case (c : case) : N :=
       let same := url_eqb impl m && beq impl_str (url_string m)
                   && opt_pair_eqb (set_path wire) (Some (q_path q, q_rawpath q)) in
       let dom := tmpl_dom t && req_dom t wire q in
-      let spec := negb dom || beq impl_str (expected_location t wire q) in
-      let region := if region_adjacent_raw t q then Some 1 else None in
+      (* on the domain of C13_location_spec: the exact text; for a documented template and a
+         request outside [req_dom] (raw non-ASCII bytes, ! ' ( ) * [ ] , a host that needs
+         escaping): the same URL up to percent-decoding *)
+      let weak_dom := tmpl_dom t && Bool.eqb (has_prefix (q_path q) (t_strip t)) (has_prefix wire (t_strip t)) in
+      let spec := if dom then beq impl_str (expected_location t wire q)
+                  else if weak_dom then loc_equiv impl_str (expected_location t wire q) else true in
+      let region := if adjacent t then Some 1 else None in
       let nontriv := dom && match path_pat t with Some _ => true | None => false end in
       verdict same spec region nontriv
   | CCode opt impl =>
@@ -75,21 +103,21 @@ Definition check_case (c : case) : N :=
       verdict same spec region (negb (impl =? 0)%Z)
   | CServe cands q impl hits =>
       let m := fst (handle q cands []) in
-      let same := response_eqb impl m && Nat.eqb hits (upstream_calls m) in
+      let same := response_same (any_adjacent (somes cands)) impl m && Nat.eqb hits (upstream_calls m) in
       let spec := response_equiv impl (ref_response q cands)
                   && Nat.eqb hits (match impl with RProxy _ => 1 | _ => 0 end)
                   && match impl with RRedirect c _ => code_ok c | RBadCode _ => false | _ => true end in
       let region := if region_bad_code cands then Some 4
                     else if region_no_xfp q cands then Some 3
                     else if region_last_skipped q cands then Some 2
-                    else if any_adjacent_raw q (somes cands) then Some 1 else None in
+                    else if any_adjacent (somes cands) then Some 1 else None in
       let nontriv := match m with RRedirect _ _ => true | _ => Nat.ltb 1 (length cands) end in
       verdict same spec region nontriv
   | CSched t qa qb la lb =>
       let reqs := [(qa, [Some t]); (qb, [Some t])] in
       let w := run_sched reqs [ALookup 0; ALookup 1; AServe 0; AServe 1] world0 in
       let same := match w_out w with
-                  | [(1%nat, mb); (0%nat, ma)] => response_equiv la ma && response_equiv lb mb
+                  | [(1%nat, mb); (0%nat, ma)] => response_same (adjacent t) la ma && response_same (adjacent t) lb mb
                   | _ => false
                   end in
       let own_a := fst (handle qa [Some t] []) in
@@ -97,4 +125,18 @@ Definition check_case (c : case) : N :=
       let spec := response_equiv la own_a && response_equiv lb own_b in
       let region := if negb (response_equiv own_a own_b) then Some 5 else None in
       verdict same spec region (negb (response_equiv own_a own_b))
+  | CHistory steps =>
+      let impls := map (fun s => match s with (_, _, resp, _) => resp end) steps in
+      let adj := existsb (fun s => match s with (_, cands, _, _) => any_adjacent (somes cands) end) steps in
+      let hits_ok := forallb (fun s => match s with (_, _, resp, h) => Nat.eqb h (upstream_calls resp) end) steps in
+      let same := list_all2 (response_same adj) impls (history_model [] steps) && hits_ok in
+      (* C13_answer_from_request_alone / C13_serial_schedule_own: in a serial history every
+         answer is the one the request gets when it is handled on fresh targets *)
+      let owns := map (fun s => match s with (q, cands, _, _) => fst (handle q cands []) end) steps in
+      let spec := list_all2 response_equiv impls owns && hits_ok in
+      let region := if adj then Some 1 else None in
+      verdict same spec region (Nat.ltb 1 (length steps))
+  | CBuildHistory t steps =>
+      let ok := forallb (fun s => match s with (q, impl_str) => beq impl_str (url_string (build_redirect_url t q)) end) steps in
+      verdict ok ok None (Nat.ltb 1 (length steps))
   end.
